@@ -44,6 +44,16 @@ def gen_case(rng, tier, i):
             from vlib.proggen import add_simlisteners
             add_simlisteners(rng, prog, ("WARMUP_EVENT", "TIME_CHANGED_EVENT", "START_EVENT"))
     hist = HIST[i % len(HIST)]
+    if rng.random() < 0.25 and hist != "fault":
+        # a model with failing handlers on a simulator whose error strategy was chosen once, when it was set up (log / warn and
+        # continue): the setting is in force in every replication
+        tags = sorted({a[-1] for acts in [prog["init"]] + list(prog["handlers"].values()) for a in acts
+                       if a[0] in ("rel", "abs", "now", "ev", "drawrel") and isinstance(a[-1], str)})
+        if tags:
+            for t in rng.sample(tags, min(len(tags), rng.randint(1, 2))):
+                acts = prog["handlers"].setdefault(t, [])
+                acts.insert(rng.randint(0, len(acts)), ["raise", "exc"])
+            prog["strategy"] = rng.choice(["log", "warn"])
     return {"prog": prog, "hist": hist, "k": rng.randint(1, 5), "cut": rng.randint(0, 40)}
 
 
@@ -76,6 +86,9 @@ def run_case(case, ctx):
     from vlib.refdevs import tnum
     prog, hist = case["prog"], case["hist"]
     where = {"clock": prog["clock"], "history": hist, "k": case["k"]}
+    if prog.get("strategy"):
+        ctx.count("cases_with_failing_handlers_under_a_strategy_set_once")
+        where["strategy"] = prog["strategy"]
     # ---- brand-new simulator and model: the reference replication
     fresh = Harness(prog, "fresh")
     a = Harness(_history_program(prog, hist), "reused")
